@@ -31,6 +31,8 @@ def calls(body):
 
 def run(ctx):
     ctx.prove("MpcVerif.Props.C02", THEOREMS)
+    # composition with the connection-layer theorem of C11 (transport fragmentation, writer schedule)
+    ctx.prove("MpcVerif.Props.C02Conn", ["Mpc.C02_messages_over_conn", "Mpc.Msg.ofVal_toVal", "Mpc.C11_conn_roundtrip"])
     if ctx.tier == "thorough":
         ctx.leanchecker("MpcVerif.Props.C02")
     ctx.build_drv()
